@@ -385,12 +385,14 @@ static void discCase(Rng & rng) {
 }
 
 // ------------------------------------------------------------------------------------------ AMDP
-template <bool Sparse> static void amdpCase(Rng & rng, long idx) {
+template <bool Sparse> static void amdpCase(Rng & rng, long idx, size_t forceS = 0, size_t forceBuckets = 0) {
     size_t S = (size_t)rng.range(1 + (idx % 5 != 0), 4), A = (size_t)rng.range(1, 3), O = (size_t)rng.range(1, 3);
+    if (forceS) S = forceS;
     auto pt = verif::randomPomdp(rng, S, A, O);
     auto model = verif::toDense(pt);
     const auto model2 = model;     // same internal generator state: BeliefGenerator samples through the model
     size_t nBeliefs = (size_t)rng.range(1, 8), buckets = (size_t)rng.range(1, 8);
+    if (forceBuckets) buckets = forceBuckets;
     unsigned seed = (unsigned)rng.below(1u << 30);
     POMDP::AMDP amdp(nBeliefs, buckets);
     const size_t S1 = S * buckets;
@@ -621,6 +623,8 @@ static void witnessCases(long idx) {
         Rng r1(777), r2(778); coopCase(r1, 1); coopCase(r2, 2);   // CooperativeModel constructor: discount 2.0 and NaN
     } else if (idx == 2) {    // AMDP with buckets nobody visits: dense R(s,a) = 0/0
         Rng rng(12345); amdpCase<false>(rng, 1); Rng rng2(12345); amdpCase<true>(rng2, 1);
+        // single-state POMDP, 3 entropy buckets: the discretizer computes 0/0 and casts NaN to size_t
+        Rng rng3(999); amdpCase<false>(rng3, 1, 1, 3); Rng rng4(999); amdpCase<true>(rng4, 1, 1, 3);
     } else if (idx == 3) {    // sparse storage of a valid table whose sub-threshold entries add up to more than the tolerance
         V3 t(1, V2(1)); t[0][0] = {1.0 - 2.7e-6, 9e-7, 9e-7, 9e-7};
         V3 t4(4, V2(1)); for (size_t s = 0; s < 4; ++s) { t4[s][0] = {0, 0, 0, 0}; t4[s][0][s] = 1.0; } t4[0][0] = t[0][0];
